@@ -190,6 +190,7 @@ class MemioEngine(object):
             c.mc.sdram_alloc_as_filelike, size, tag, xy[0], xy[1], app, clear)
         self.inject_alloc_fail = False
         if status == "exc":
+            c.settle()
             if isinstance(val, c.mcmod.SpiNNakerMemoryError):
                 w.probe("alloc_failed")
                 if heal or (not fail and ch.sdram.largest_free() >= size + 16
@@ -283,6 +284,7 @@ class MemioEngine(object):
                 utils.sdram_alloc_for_vertices, c.mc, placements, allocations,
                 core_as_tag=clean and bool(t.draw(2)))
         if status == "exc":
+            c.settle()
             for xy in self.chip_list:
                 self.resync_heap(xy)
             self.end(type(val).__name__)
@@ -400,6 +402,7 @@ class MemioEngine(object):
         warned = any(issubclass(r.category, c.mcmod.TruncationWarning)
                      for r in rec)
         if status == "exc":
+            c.settle()
             w.probe("op_timeout")
             if c.clean():
                 w.violate("L", "read timed out with no fault active",
@@ -467,6 +470,7 @@ class MemioEngine(object):
         take = max(0, min(n, avail)) if v.pos >= 0 else 0
         new = data[:take]
         if status == "exc":
+            c.settle()
             w.probe("op_timeout")
             if c.clean():
                 w.violate("L", "write timed out with no fault active",
@@ -592,6 +596,7 @@ class MemioEngine(object):
         self.begin("free", "%s.free()" % rootv.name, None)
         status, val = rigcall(w, (c.scp.TimeoutError,), rootv.obj.free)
         if status == "exc":
+            c.settle()
             w.probe("op_timeout")
             self.end("TimeoutError")
             return
